@@ -55,6 +55,11 @@ func CSSRule(selector string, style Style) (StyleSheet, error) {
 	if matches := invalidCSSSelectorRune.FindStringSubmatch(selectorWithoutStrings); matches != nil {
 		return StyleSheet{}, fmt.Errorf("selector %q contains %q, which is disallowed outside of CSS strings", selector, matches[0])
 	}
+	// Quotes inside an unquoted url( are not string delimiters for a CSS tokenizer, so the text
+	// removed above as a "string" could really be a bad-url token followed by arbitrary rules.
+	if strings.Contains(strings.ToLower(selectorWithoutStrings), "url(") {
+		return StyleSheet{}, fmt.Errorf("selector %q contains %q, which is disallowed outside of CSS strings", selector, "url(")
+	}
 	if !hasBalancedBrackets(selectorWithoutStrings) {
 		return StyleSheet{}, fmt.Errorf("selector %q contains unbalanced () or [] brackets", selector)
 	}
